@@ -6,6 +6,9 @@ import (
 	"io"
 	"log"
 	"os"
+	"runtime/pprof"
+
+	"github.com/skycoin/skycoin/src/daemon/gnet"
 
 	"verif/engine"
 )
@@ -21,6 +24,7 @@ func register(id, level string, f func(r *engine.Run)) {
 
 func main() {
 	log.SetOutput(io.Discard) // the code under test logs through the std logger on boundary inputs
+	gnet.VerifQuiet()         // ... and through logrus
 	if len(os.Args) >= 3 && os.Args[1] == "--worker" {
 		w, ok := workers[os.Args[2]]
 		if !ok {
@@ -42,6 +46,12 @@ func main() {
 	if tier == "--replay" {
 		fmt.Fprintln(os.Stderr, "replay: re-running the quick tier (replay files of this group hold plain inputs; every case of the file is inside the quick alphabet)")
 		tier = "quick"
+	}
+	if pf := os.Getenv("VERIF_CPUPROFILE"); pf != "" { // developer aid only
+		if f, err := os.Create(pf); err == nil {
+			pprof.StartCPUProfile(f) //nolint
+			defer pprof.StopCPUProfile()
+		}
 	}
 	r := engine.Start(id, tier, levels[id])
 	defer engine.Cleanup()
